@@ -18,6 +18,20 @@ from .layout_spec import DictNode, Leaf, ListNode
 
 
 # ------------------------------------------------------------------------------------------ proof side
+def _install_factory_handlers(interp, case):
+    """a call of a stateful default factory of the model yields a value tagged with the factory: `Expect.default_ok` then knows the
+    value passed to the constructor was produced by a call made DURING this load (a literal inlined at generation time is not)"""
+    from pyvc.values import V
+    from .family import LoggingFactory
+    for f in case.fields:
+        if f.default is not None and f.default[0] == "factory" and isinstance(f.default[1], LoggingFactory):
+            def handler(interp_, st, args, kwargs, fac=f.default[1]):
+                v = V("const", d=("result of a call of the stateful factory", id(fac)))
+                v.tag = ("factory_call", fac)
+                yield st, ("ok", v)
+            interp.handlers[f.default[1]] = handler
+
+
 def verify_case(job):
     idx, tier, seed = job[:3]
     group = job[3] if len(job) > 3 else "base"
@@ -55,6 +69,7 @@ def _verify_case(case, tier, seed):
         from . import symdata
         run.root = symdata.SNode(run.interp, run.st0, "data")
         exp = Expect(run, case.layout, case.fields, case.strict, case.debug_trail.name)
+        _install_factory_handlers(run.interp, case)
         paths = run.run()
     except Unsupported as e:
         out["error"] = ("unsupported", str(e))
@@ -226,6 +241,28 @@ def gen_inputs(crown, extra_policy, rnd, budget=400):
             return out
         return [[(presence(node.children[i], cap=2)[-1] if i in node.children else "gap") for i in range(node.size)]]
     systematic = presence(crown)[:max(budget // 2, 100)]
+
+    def leaf_paths(node, prefix=()):
+        if isinstance(node, Leaf):
+            yield prefix
+        else:
+            for k, ch in node.children.items():
+                yield from leaf_paths(ch, prefix + (k,))
+
+    def with_leaf(value, path, new):
+        if not path:
+            return new
+        if isinstance(value, dict):
+            return {k: (with_leaf(v, path[1:], new) if k == path[0] else v) for k, v in value.items()}
+        return [(with_leaf(v, path[1:], new) if i == path[0] else v) for i, v in enumerate(value)]
+    if systematic:
+        # a PRESENT field whose value is None (or another falsy datum) is data like any other: it is loaded, never replaced by a default
+        full0 = max(systematic, key=lambda d: len(repr(d)))
+        paths_ = list(leaf_paths(crown))
+        nones = [with_leaf(full0, p, None) for p in paths_[:12]] + [with_leaf(full0, p, 0) for p in paths_[:4]]
+        only = [with_leaf(x, p, None) for p in paths_[:6] for x in systematic[:40]
+                if isinstance(crown, DictNode) and p[:1] and isinstance(x, dict) and set(x) == {p[0]}]
+        systematic = systematic[:1] + nones + only[:12] + systematic[1:]
     if isinstance(crown, DictNode) and systematic:
         full = max(systematic, key=lambda d: len(repr(d)))
         systematic = [{**full, 7: "E7"}, {**full, "zzz_extra": "E"}, {**full, (1, 2): "E12", "zzz_extra": "E"}] + systematic
@@ -341,6 +378,7 @@ def native_check(case, cap, limit=200, seed=0):
             n += 1
             snap = repr(data)
             fine, definite, bindings, extras = native_eval(case, data)
+            log_len = {f.name: len(f.default[1].log) for f in case.fields if f.default is not None and hasattr(f.default[1], "log")}
             try:
                 obj = loader(data)
                 outcome = ("ok", obj)
@@ -370,8 +408,14 @@ def native_check(case, cap, limit=200, seed=0):
                             if kind == "value":
                                 if not (got is d or (type(got) is type(d) and got == d)):
                                     mm(f"binding:{f.name}", f"absent field {f.name} = {got!r} ({type(got).__name__}), default is {d!r}")
+                            elif hasattr(d, "log"):
+                                # stateful factory: exactly one call during this load, and its result is what the field holds
+                                if len(d.log) != log_len[f.name] + 1 or got != d.log[-1]:
+                                    mm(f"binding:{f.name}", f"absent field {f.name} = {got!r}; the default factory was called "
+                                                            f"{len(d.log) - log_len[f.name]} times during this load"
+                                                            f"{' (last result ' + repr(d.log[-1]) + ')' if d.log else ''}")
                             else:
-                                w = d()
+                                w = d(obj) if kind == "self-factory" else d()
                                 if not (type(got) is type(w) and got == w):
                                     mm(f"binding:{f.name}", f"absent field {f.name} = {got!r}, factory gives {w!r}")
                     if case.kwargs_param and getattr(obj, "kwargs", {}) != extras:
@@ -581,6 +625,6 @@ def extra_for_property(prop, tier, seed, group="base"):
     viol = [v for v in viol if prop in v.get("props", [prop])]
     return {"obligations": n_obl, "discharged": n_dis, "by_backend": by_backend, "violations": viol, "undecided": undecided,
             "crashes": crashes, "functions": functions[:40], "samples": samples, "solver_time": solver_time,
-            "assumptions": sorted(assumptions) + [f"bounded over programs: {programs} generated loaders (family printed in "
-                                                 f"genprog/family.py); unbounded over inputs"],
-            "bounded": [{"unit": "GENPROG program family", "bound": f"{programs} generated loaders"}]}
+            "assumptions": sorted(assumptions) + [f"bounded over programs: {programs} generated programs (loaders / dumpers: "
+                                                 f"genprog/family.py, dump.py; converters: genprog/conv.py); unbounded over inputs"],
+            "bounded": [{"unit": "GENPROG program family", "bound": f"{programs} generated programs (loaders, dumpers or converters)"}]}
